@@ -1,4 +1,5 @@
 """C16 — connected components are exactly the classes of mutually reachable nodes."""
+import contextlib
 import itertools
 import numpy as np
 from common import *
@@ -20,7 +21,11 @@ RULE = ('every labelled undirected graph on n<=5 nodes (n<=6 thorough) + the emp
         'one flipped entry, unequal mirrored weights, +w/-w sign asymmetry (float, int and bool dtype), and NOISE-LEVEL '
         'asymmetries of one mirrored pair (absolute 2^-40, 1e-9; relative 1e-7, one ulp) that np.allclose would accept but the '
         'code (and the property) rejects; plus a signed stream (+-1 weights on even cycles, grids, ER, complete graphs, the 4-cycle +,+,+,-) and '
-        'chains of 40..70 nodes with weights 1e-6 / 2^-30 (products underflow) for the agreement-with-distance clause. non-trivial = at least one off-diagonal connection '
+        'chains of 40..70 nodes with weights 1e-6 / 2^-30 (products underflow) for the agreement-with-distance clause; plus six '
+        '(thorough: forty) sparse networks on n = 258..300 nodes with SEVERAL isolated nodes numbered 257 and up and connected ones up there too '
+        '(short paths / stars below 250 and nothing above; sparse forest over half the nodes; Erdos-Renyi of mean degree 1.2 with a third left '
+        'out; matched pairs from 250 up + a few 4-cliques), binary / dyadic / +-1 weights, float / int / bool, judged by the BFS oracle only '
+        '(all get_components / number_of_components clauses; the three distance agreements on every second one). non-trivial = at least one off-diagonal connection '
         '(at least one merge of two blocks happens); distinct by hash of the matrix')
 ASSUMES = ['weights enter the code only through `A == A.T` and `!= 0`, so the model carries them as integers '
            '(every generated float is a dyadic rational; the whole matrix is multiplied by the common power-of-two denominator, '
@@ -232,8 +237,129 @@ def enc_zbig(x):
     return ('-' if x < 0 else '') + '0b' + bin(abs(x))[2:]
 
 
+# ---------------------------------------------------------------- BLAS threads (speed only)
+_BLAS = None
+
+
+def _blas():
+    """(set_num_threads, get_num_threads) of the OpenBLAS that numpy loaded, or (None, None)"""
+    global _BLAS
+    if _BLAS is None:
+        _BLAS = (None, None)
+        try:
+            import ctypes
+            libs = sorted({l.split()[-1] for l in open('/proc/self/maps') if 'openblas' in l.lower() and '.so' in l})
+            for p in libs:
+                lib = ctypes.CDLL(p)
+                for pre in ('scipy_openblas', 'openblas'):
+                    for suf in ('64_', ''):
+                        try:
+                            _BLAS = (getattr(lib, pre + '_set_num_threads' + suf), getattr(lib, pre + '_get_num_threads' + suf))
+                            return _BLAS
+                        except AttributeError:
+                            pass
+        except Exception:
+            pass
+    return _BLAS
+
+
+@contextlib.contextmanager
+def blas_threads(k=1):
+    """the n ~ 280 matrix powers of reachdist / distance_bin cost 15 times more CPU on 16 spinning BLAS threads than on one"""
+    st, gt = _blas()
+    old = None
+    if st is not None:
+        try:
+            old = int(gt()); st(int(k))
+        except Exception:
+            old = None
+    try:
+        yield
+    finally:
+        if old is not None:
+            st(old)
+
+
+# ---------------------------------------------------------------- networks with more than 257 nodes
+def big_graph(r, n, style):
+    """edge list on n = 258..300 nodes.  Node numbers above 256 are where an identity test between two equal Python integers
+    (`u is v`) stops being true, above 255 / 127 where a narrow label type wraps: every style leaves SEVERAL isolated nodes
+    among the highest numbers (and some low ones), and puts connected nodes up there too.
+      high_isolated: short paths / stars among the low numbers, the nodes from 257 on all isolated
+      mixed_high:    a sparse forest over a random half of the nodes; among the numbers >= 257 some isolated, some attached
+      er_sparse:     Erdos-Renyi with mean degree ~1.2 on a random subset, a third of the nodes left out
+      pairs_high:    the nodes >= 250 matched in pairs (i, i+1) with gaps, low numbers a few cliques"""
+    hi = [v for v in range(n) if v >= 257]
+    if style == 'high_isolated':
+        E, v = [], 0
+        while v + 6 < 250:
+            k = int(r.randint(2, 6))
+            if r.rand() < 0.5:
+                E += [(v + i, v + i + 1) for i in range(k - 1)]
+            else:
+                E += [(v, v + i) for i in range(1, k)]
+            v += k + int(r.randint(0, 9))
+        return E
+    if style == 'mixed_high':
+        nodes = [int(x) for x in r.permutation(n)[:n // 2]]
+        keep_iso = set(int(x) for x in r.choice(hi, max(1, len(hi) // 2), replace=False))
+        nodes = [v for v in nodes if v not in keep_iso] + [v for v in hi if v not in keep_iso]
+        nodes = list(dict.fromkeys(nodes))
+        E = []
+        for k in range(1, len(nodes)):
+            if r.rand() < 0.8:
+                E.append((nodes[k], nodes[int(r.randint(max(0, k - 6), k))]))
+        return E
+    if style == 'er_sparse':
+        sub = sorted(int(x) for x in r.permutation(n)[:2 * n // 3])
+        m = int(0.6 * len(sub))
+        E = []
+        for _ in range(m):
+            a, b = r.choice(len(sub), 2, replace=False)
+            E.append((sub[int(a)], sub[int(b)]))
+        return E
+    E = []
+    v = 250
+    while v + 1 < n:
+        if r.rand() < 0.6:
+            E.append((v, v + 1)); v += 2
+        else:
+            v += 1
+    for c in range(3):
+        base = int(r.randint(0, 200))
+        E += [(base + i, base + j) for i in range(4) for j in range(i + 1, 4)]
+    return E
+
+
+BIG_STYLES = ['high_isolated', 'mixed_high', 'er_sparse', 'pairs_high']
+
+
+def big_cases(ctx, bct, r):
+    """n = 258..300, direct oracle only (BFS), compact case description"""
+    for t in range(ctx.scale(6, 40)):
+        n = int(r.randint(258, 301))
+        style = BIG_STYLES[t % len(BIG_STYLES)]
+        E = [(a, b) for a, b in big_graph(r, n, style) if a != b]
+        wkind = ['bin', 'dyadic', 'pm1'][t % 3]
+        dtype = 'float' if wkind == 'dyadic' else ['float', 'int', 'bool'][int(r.randint(0, 3))]
+        W = build(r, n, E, wkind, ['zero', 'zero', 'rand'][int(r.randint(0, 3))])
+        val = (lambda x: str(int(x != 0))) if dtype == 'bool' else str       # what the array of that dtype holds
+        ent = {'%d-%d' % (min(a, b), max(a, b)): val(W[a][b]) for a, b in E}
+        dg = {str(i): val(W[i][i]) for i in range(n) if W[i][i] != 0}
+        desc = {'n': n, 'zeros_plus_symmetric_entries': ent, 'diagonal': dg}
+        ctx.count('weights:' + wkind); ctx.count('big:' + style)
+        deg = [0] * n
+        for a, b in E:
+            deg[a] += 1; deg[b] += 1
+        ctx.count('big:isolated_nodes_numbered_257_up', sum(1 for v in range(257, n) if deg[v] == 0))
+        with blas_threads(1):
+            one_case(ctx, bct, W, dtype, 'big_' + style, None, None, with_dist=(t % 2 == 0 or ctx.thorough), desc=desc)
+
+
 # ---------------------------------------------------------------- one case
-def one_case(ctx, bct, W, dtype, fam, lines, pend, malformed=False, with_dist=True):
+def one_case(ctx, bct, W, dtype, fam, lines, pend, malformed=False, with_dist=True, desc=None):
+    """desc: compact description of a large matrix (zeros + listed symmetric entries) used as the case instead of the n x n table;
+    such a case is judged by the direct oracle only (lines is None: the list model is quadratic in the number of blocks)"""
     n = len(W)
     A = to_np(W, dtype)
     if dtype == 'bool':
@@ -241,6 +367,8 @@ def one_case(ctx, bct, W, dtype, fam, lines, pend, malformed=False, with_dist=Tr
     elif dtype == 'int':
         W = [[Fraction(int(x)) for x in row] for row in W]
     case = {'fn': 'get_components', 'family': fam, 'dtype': dtype, 'A': [[str(x) for x in row] for row in W]}
+    if desc is not None:
+        case['A'] = desc
     offdiag = any(W[i][j] != 0 for i in range(n) for j in range(n) if i != j)
     ctx.case(case, nontrivial=offdiag, sample_every=997)
     ctx.count('family:' + fam); ctx.count('n=%d' % n); ctx.count('dtype:' + dtype)
@@ -313,6 +441,8 @@ def one_case(ctx, bct, W, dtype, fam, lines, pend, malformed=False, with_dist=Tr
                               'label co-membership differs from finite distance_bin entries', case)
             except Timeout:
                 ctx.fail('distance:timeout', 'a distance routine did not terminate', case)
+    if lines is None:
+        return
     rows = model_rows(W)
     mcase = tie_variants(dict(case), since_case=True)      # input-representation layer: the model comparison is batched and comes later
     lines.append('gc ' + enc_mat(rows, enc_zbig)); pend.append(('gc', mcase, (comps, sz), err))
@@ -422,6 +552,10 @@ def run(ctx):
             W[i][j] = Fraction(w2); W[j][i] = Fraction(w)
             ctx.count('malformed:noise_%d' % sub)
         one_case(ctx, bct, W, dtype, 'malformed_%d' % min(kind, 4), lines, pend, malformed=True)
+
+    # ---------------- more than 257 nodes (own random stream; last, so that the forced first variant / decoy calls and the
+    # draws of every other family stay what they were)
+    big_cases(ctx, bct, np.random.RandomState((ctx.seed * 7919 + 16016) % (2 ** 31)))
 
     # ---------------- correspondence: extracted Coq model on the same inputs, labels compared exactly
     res = run_model(ID, lines)
